@@ -13,8 +13,8 @@
 import itertools
 from vmon.wsgi import make_environ, call_app
 
-RULE = ('operations over a universe of 14 rules (shared and splitting prefixes, wildcard siblings, filter families) and 6 hook rules (root, inner '
-        'prefixes, a wildcard prefix, a hook-only leaf): add / add other method / named add / overwrite / duplicate and name-clash rejections / '
+RULE = ('operations over a universe of 14 rules (shared and splitting prefixes, wildcard siblings, filter families) and 7 hook rules (root, inner '
+        'prefixes, a wildcard prefix, a literal sibling of a wildcard, a hook-only leaf): add / add other method / named add / overwrite / duplicate and name-clash rejections / '
         'filter clashes / remove(rule) / remove(name) / remove(prefix*) / add_hook / remove_hook / removals of absent things. exhaustive units: every '
         'history of length <= D over the whole alphabet (D=2 quick, 3 thorough) by re-execution; random units: histories of length 6-30. After each '
         'history: probes on ~30 paths x 2 verbs + names + rules + routes + WSGI hook traces, real vs freshly built. Non-trivial = the history '
@@ -47,7 +47,7 @@ RULES = {
     '/a/b/<z>': ('a/b/' + W, '/a/b/zed', {'z': 'zed'}),
 }
 FAMILIES = [{'/a/<x>', '/a/<x>/c', '/a/<n:int>'}, {'/b/<p:path>', '/b/<p:path>/end'}]
-HOOKS = {'/': '', '/a': 'a', '/a/<x>': 'a/' + W, '/h': 'h', '/ab': 'ab', '/zz': 'zz'}
+HOOKS = {'/': '', '/a': 'a', '/a/<x>': 'a/' + W, '/h': 'h', '/ab': 'ab', '/zz': 'zz', '/a/b': 'a/b'}
 EXTRA_PATHS = ['/', '/a/', '/abcd', '/a/5/c', '/a/b/c', '/zz', '/zz/top', '/h', '/h/z', '/b/end', '/b', '/x/d', '/a/b/', '/A', '/a//c', '/ab/']
 PREFIXES = ['/a*', '/a/*', '/h/*', '/q*', '/a/b*']
 
@@ -405,7 +405,7 @@ def compare(ctx, real, hist, tag):
         if r1.code == 200 and hs:
             hid = hs[0][1]
             rule = next((r for r, v in real.routes.items() if hid in v['methods'].values()), None)
-            if rule is not None and RULES[rule][1] == path:
+            if rule is not None:
                 pat = pats[rule]
                 poss = pattern_positions(rule, path)
                 expect = []
@@ -420,7 +420,7 @@ def compare(ctx, real, hist, tag):
                 if got != expect:
                     ctx.violation('hook-firings-differ-from-the-statement', f'{where}: GET {path} (rule {rule}): fired {got}, expected {expect}', wit)
                     return False
-                if dict(hs[0][2]) != RULES[rule][2]:
+                if RULES[rule][1] == path and dict(hs[0][2]) != RULES[rule][2]:
                     ctx.violation('handler-arguments-differ', f'{where}: GET {path} (rule {rule}): {hs[0][2]}', wit)
                     return False
     return ok
